@@ -436,3 +436,89 @@ package h2
 
 // RFC 7540 6.5.2: SETTINGS_MAX_FRAME_SIZE is between 2^14 and 2^24-1 (the property's premise: RFC-valid settings).
 //@ pred frameSizeOK(r *relay) = 16384 <= r.maxFrameSize && r.maxFrameSize <= 16777215
+
+// ---------------------------------------------------------------------------------------------
+// C08: what a queued frame writes. Ghost record of the frames written to a Framer (wr*): kind 1 = HEADERS,
+// 9 = CONTINUATION, 5 = PUSH_PROMISE, 0 = DATA, 2 = PRIORITY, 3 = RST_STREAM.
+
+//@ ghost var wrN int
+//@ ghost var wrKindAt gmap[int]int
+//@ ghost var wrStreamAt gmap[int]int
+//@ ghost var wrFragAt gmap[int][]byte
+//@ ghost var wrEndHeadersAt gmap[int]bool
+//@ ghost var wrEndStreamAt gmap[int]bool
+//@ ghost var wrPrioAt gmap[int]http2.PriorityParam
+//@ ghost var wrAuxAt gmap[int]int
+
+//@ extern func (*http2.Framer).WriteHeaders
+//@   modifies wrN, wrKindAt, wrStreamAt, wrFragAt, wrEndHeadersAt, wrEndStreamAt, wrPrioAt
+//@   ensures wrN == old(wrN) + 1 && wrKindAt == upd(old(wrKindAt), old(wrN), 1) && wrStreamAt == upd(old(wrStreamAt), old(wrN), p.StreamID) &&
+//@        wrFragAt == upd(old(wrFragAt), old(wrN), p.BlockFragment) && wrEndHeadersAt == upd(old(wrEndHeadersAt), old(wrN), p.EndHeaders) &&
+//@        wrEndStreamAt == upd(old(wrEndStreamAt), old(wrN), p.EndStream) && wrPrioAt == upd(old(wrPrioAt), old(wrN), p.Priority)
+//@ extern func (*http2.Framer).WriteContinuation
+//@   modifies wrN, wrKindAt, wrStreamAt, wrFragAt, wrEndHeadersAt
+//@   ensures wrN == old(wrN) + 1 && wrKindAt == upd(old(wrKindAt), old(wrN), 9) && wrStreamAt == upd(old(wrStreamAt), old(wrN), streamID) &&
+//@        wrFragAt == upd(old(wrFragAt), old(wrN), headerBlockFragment) && wrEndHeadersAt == upd(old(wrEndHeadersAt), old(wrN), endHeaders)
+//@ extern func (*http2.Framer).WritePushPromise
+//@   modifies wrN, wrKindAt, wrStreamAt, wrFragAt, wrEndHeadersAt, wrAuxAt
+//@   ensures wrN == old(wrN) + 1 && wrKindAt == upd(old(wrKindAt), old(wrN), 5) && wrStreamAt == upd(old(wrStreamAt), old(wrN), p.StreamID) &&
+//@        wrFragAt == upd(old(wrFragAt), old(wrN), p.BlockFragment) && wrEndHeadersAt == upd(old(wrEndHeadersAt), old(wrN), p.EndHeaders) &&
+//@        wrAuxAt == upd(old(wrAuxAt), old(wrN), p.PromiseID)
+//@ extern func (*http2.Framer).WriteData
+//@   modifies wrN, wrKindAt, wrStreamAt, wrFragAt, wrEndStreamAt
+//@   ensures wrN == old(wrN) + 1 && wrKindAt == upd(old(wrKindAt), old(wrN), 0) && wrStreamAt == upd(old(wrStreamAt), old(wrN), streamID) &&
+//@        wrFragAt == upd(old(wrFragAt), old(wrN), data) && wrEndStreamAt == upd(old(wrEndStreamAt), old(wrN), endStream)
+//@ extern func (*http2.Framer).WritePriority
+//@   modifies wrN, wrKindAt, wrStreamAt, wrPrioAt
+//@   ensures wrN == old(wrN) + 1 && wrKindAt == upd(old(wrKindAt), old(wrN), 2) && wrStreamAt == upd(old(wrStreamAt), old(wrN), streamID) && wrPrioAt == upd(old(wrPrioAt), old(wrN), p)
+//@ extern func (*http2.Framer).WriteRSTStream
+//@   modifies wrN, wrKindAt, wrStreamAt, wrAuxAt
+//@   ensures wrN == old(wrN) + 1 && wrKindAt == upd(old(wrKindAt), old(wrN), 3) && wrStreamAt == upd(old(wrStreamAt), old(wrN), streamID) && wrAuxAt == upd(old(wrAuxAt), old(wrN), code)
+
+//@ func (*queuedDataFrame).send
+//@   serves C08
+//@   requires f != nil && dest != nil
+//@   modifies wrN, wrKindAt, wrStreamAt, wrFragAt, wrEndStreamAt
+//@   ensures[data-frame-as-queued] wrN == old(wrN) + 1 && wrKindAt[old(wrN)] == 0 && wrStreamAt[old(wrN)] == f.streamID && wrFragAt[old(wrN)] == f.data && wrEndStreamAt[old(wrN)] == f.endStream
+
+//@ func (*queuedHeaderFrame).send
+//@   serves C08
+//@   safe index
+//@   requires f != nil && dest != nil && len(f.chunks) >= 1
+//@   modifies wrN, wrKindAt, wrStreamAt, wrFragAt, wrEndHeadersAt, wrEndStreamAt, wrPrioAt
+//@   ensures[headers-first] result == nil ==> wrN == old(wrN) + len(f.chunks) && wrKindAt[old(wrN)] == 1 && wrStreamAt[old(wrN)] == f.streamID &&
+//@        wrFragAt[old(wrN)] == f.chunks[0] && wrEndStreamAt[old(wrN)] == f.endStream && wrPrioAt[old(wrN)] == f.priority &&
+//@        wrEndHeadersAt[old(wrN)] == (len(f.chunks) == 1)
+//@   ensures[continuations-in-order-end-headers-on-last] result == nil ==> forall k int :: 1 <= k && k < len(f.chunks) ==>
+//@        wrKindAt[old(wrN)+k] == 9 && wrStreamAt[old(wrN)+k] == f.streamID && wrFragAt[old(wrN)+k] == f.chunks[k] && wrEndHeadersAt[old(wrN)+k] == (k == len(f.chunks)-1)
+//@   loop 0 invariant 1 <= i && i <= len(f.chunks) && wrN == old(wrN) + i
+//@   loop 0 invariant wrKindAt[old(wrN)] == 1 && wrStreamAt[old(wrN)] == f.streamID && wrFragAt[old(wrN)] == f.chunks[0] && wrEndStreamAt[old(wrN)] == f.endStream &&
+//@        wrPrioAt[old(wrN)] == f.priority && wrEndHeadersAt[old(wrN)] == (len(f.chunks) == 1)
+//@   loop 0 invariant forall k int :: 1 <= k && k < i ==>
+//@        wrKindAt[old(wrN)+k] == 9 && wrStreamAt[old(wrN)+k] == f.streamID && wrFragAt[old(wrN)+k] == f.chunks[k] && wrEndHeadersAt[old(wrN)+k] == (k == len(f.chunks)-1)
+
+//@ func (*queuedPushPromiseFrame).send
+//@   serves C08
+//@   safe index
+//@   requires f != nil && dest != nil && len(f.chunks) >= 1
+//@   modifies wrN, wrKindAt, wrStreamAt, wrFragAt, wrEndHeadersAt, wrAuxAt
+//@   ensures[push-promise-first] result == nil ==> wrN == old(wrN) + len(f.chunks) && wrKindAt[old(wrN)] == 5 && wrStreamAt[old(wrN)] == f.streamID &&
+//@        wrFragAt[old(wrN)] == f.chunks[0] && wrAuxAt[old(wrN)] == f.promiseID && wrEndHeadersAt[old(wrN)] == (len(f.chunks) == 1)
+//@   ensures[continuations-in-order-end-headers-on-last] result == nil ==> forall k int :: 1 <= k && k < len(f.chunks) ==>
+//@        wrKindAt[old(wrN)+k] == 9 && wrStreamAt[old(wrN)+k] == f.streamID && wrFragAt[old(wrN)+k] == f.chunks[k] && wrEndHeadersAt[old(wrN)+k] == (k == len(f.chunks)-1)
+//@   loop 0 invariant 1 <= i && i <= len(f.chunks) && wrN == old(wrN) + i
+//@   loop 0 invariant wrKindAt[old(wrN)] == 5 && wrStreamAt[old(wrN)] == f.streamID && wrFragAt[old(wrN)] == f.chunks[0] && wrAuxAt[old(wrN)] == f.promiseID && wrEndHeadersAt[old(wrN)] == (len(f.chunks) == 1)
+//@   loop 0 invariant forall k int :: 1 <= k && k < i ==>
+//@        wrKindAt[old(wrN)+k] == 9 && wrStreamAt[old(wrN)+k] == f.streamID && wrFragAt[old(wrN)+k] == f.chunks[k] && wrEndHeadersAt[old(wrN)+k] == (k == len(f.chunks)-1)
+
+//@ func (*queuedPriorityFrame).send
+//@   serves C08
+//@   requires f != nil && dest != nil
+//@   modifies wrN, wrKindAt, wrStreamAt, wrPrioAt
+//@   ensures[priority-as-queued] wrN == old(wrN) + 1 && wrKindAt[old(wrN)] == 2 && wrStreamAt[old(wrN)] == f.streamID && wrPrioAt[old(wrN)] == f.priority
+
+//@ func (*queuedRSTStreamFrame).send
+//@   serves C08
+//@   requires f != nil && dest != nil
+//@   modifies wrN, wrKindAt, wrStreamAt, wrAuxAt
+//@   ensures[rst-as-queued] wrN == old(wrN) + 1 && wrKindAt[old(wrN)] == 3 && wrStreamAt[old(wrN)] == f.streamID && wrAuxAt[old(wrN)] == f.errCode
